@@ -800,5 +800,11 @@ m('modify-families-persist-after-unlock','C08',BT,
 	return proto.Clone(tbl.def).(*btapb.Table), nil''','''	out := proto.Clone(tbl.def).(*btapb.Table)
 	go s.storage.SetTableMeta(proto.Clone(tbl.def).(*btapb.Table))
 	return out, nil''','R75/','the definition is written to disk asynchronously, in no particular order with respect to later modifications')
+# ---- C02 / R77: bytes handed to the store are not recycled
+m('resumable-buffer-recycled-after-store','C02',GCS,
+  '''	g.uploadIds.Remove(id)
+	w.Header().Set("x-goog-generation", strconv.FormatInt(meta.Generation, 10))''','''	g.uploadIds.Remove(id)
+	u.data = u.data[:0] // keep the capacity for a retry of the same upload id
+	w.Header().Set("x-goog-generation", strconv.FormatInt(meta.Generation, 10))''','R77/','the stored object shares its bytes with a buffer that is written again')
 json.dump(M, open('/verif/mutants.json','w'), indent=1)
 print(len(M),'mutants')
